@@ -223,6 +223,8 @@ def stage_model(tier, module="MC_Small.tla", base="MC_Small", name="model"):
     def go(d):
         w = spec_workdir(d)
         cfg = "%s%s.cfg" % (base, tier_suffix(tier))
+        if not os.path.exists(os.path.join(w, cfg)):
+            cfg = base + ".cfg"                      # one configuration for both tiers
         p = tlc(w, module, cfg, workers=min(8, NCPU), timeout=3600, extra=["-coverage", "1"])
         text = p.stdout
         st = parse_tlc_stats(text)
@@ -636,13 +638,14 @@ def replay_owners(m):
     if f == "keys":
         if isinstance(exp, list) and isinstance(act, list) and sorted(exp) == sorted(act):
             return ["C05"]                  # same entries, different recency order
-        if op in EVICTING:
+        failed = (m.get("exp_tag") in ERR_TAGS) or (m.get("act_tag") in ERR_TAGS)
+        if op in EVICTING and not failed:
             return ["C03"]                  # entries left / stayed that should not have
         if op == "retain":
             return ["C15"]
         if op in ITER_KINDS:
             return ["C12"]
-        return ["C04"]
+        return ["C04", "C03"]               # an entry was lost (or invented) outside any eviction
     table = {
         "trav": ["C07"], "max": ["C01"], "bound": ["C01"], "cap": ["C13"], "b": ["C13"],
         "es_eq_rec": ["C02"], "sum_rec": ["C02"], "len": ["C02"], "is_empty": ["C02"],
@@ -664,13 +667,17 @@ def replay_owners(m):
         if op in ("insert", "try_insert"):
             return ["C10"] if (etag in ERR_TAGS or atag in ERR_TAGS) else ["C04"]
         return ret_owner(op, etag)
-    if f in ("dropped", "handed", "anom"):
-        o = ["C06"]
-        if op in ITER_KINDS and f != "anom":
-            o.append("C12")
-        if op == "retain" and f == "dropped":
-            o.append("C15")
-        return o
+    if f in ("anom", "conservation"):
+        return ["C06"]
+    if f in ("dropped", "handed"):
+        # WHICH objects are dropped / handed back belongs to the property owning the call's result
+        if op in ("set_max_size", "clear"):
+            return ["C03"]
+        etag = m.get("exp_tag") or ""
+        atag = m.get("act_tag") or ""
+        if op in ("insert", "try_insert"):
+            return ["C10"] if (etag in ERR_TAGS or atag in ERR_TAGS) else ["C04"]
+        return ret_owner(op, etag)
     if f.startswith("clone_"):
         return ["C14"]
     return ["C04"]
@@ -779,8 +786,13 @@ def collect_core(prop, tier, fnd, cov):
     for c in rep["configs"]:
         nconf += 1
         if c["crashed"]:
-            # the replayer died inside the code under test: memory-unsafety made visible
-            if prop in ("C07",):
+            # the replayer died inside the code under test: a memory error (C07), or it was
+            # stopped by its cpu / memory limit - only a cyclic list (C07) or drifting
+            # accounting (C02: eviction loops that never reach their target) can do that
+            oom = "memory allocation of" in (c.get("stderr") or "")
+            stopped = c["returncode"] in (-9, -24) or oom
+            if (prop == "C07" and not stopped) or (prop in ("C02", "C07") and stopped and not oom) \
+                    or (prop == "C13" and oom):
                 fnd.add("replayer_crash", "replayer process died (rc %s) under %s/%s: %s" %
                         (c["returncode"], c["hasher"], c["keyform"], c["stderr"][-300:]),
                         {"kind": "replay-crash", "script": rep["script"], "hasher": c["hasher"],
@@ -812,13 +824,40 @@ def collect_core(prop, tier, fnd, cov):
     if prop == "C07":
         import stages_ext
         stages_ext.list_into(prop, tier, fnd, cov, sys.modules[__name__])
-    if prop == "C01":
-        # the bound must also hold in whatever is used after a caught panic
+    if prop == "C13":
+        # tombstone arithmetic at design level: probe group width scaled down to 2
+        base = stage_model(tier, base="MC_TombBase", name="model-tombbase")
+        if not base["ok"]:
+            raise ToolError("MC_TombBase violates the specification's own properties:\n" +
+                            base.get("output_tail", "")[-2000:])
+        cov["states"] += base["states"]
+        cov["transitions"] += base["transitions"]
+        tomb = stage_model(tier, base="MC_Tomb", name="model-tomb")
+        cov["model_tomb"] = {"states": base["states"], "transitions": base["transitions"],
+                             "shrink_never_raises_holds": tomb["ok"]}
+        if not tomb["ok"]:
+            if any("ShrinkProp" in e for e in tomb.get("errors", [])):
+                fnd.add("shrink_raises_with_tombstones",
+                        "MC_Tomb: the model of shrink_to raises capacity when tombstones exist",
+                        {"kind": "model", "cfg": "MC_Tomb.cfg"})
+            else:
+                raise ToolError("MC_Tomb failed unexpectedly:\n" + tomb.get("output_tail", "")[-2000:])
+    if prop == "C19":
+        import stages_ext
+        stages_ext.clone_crash_into(prop, tier, fnd, cov, sys.modules[__name__])
+    if prop in ("C01", "C02"):
+        # the bound / the sum of recorded sizes must also hold in whatever is used after a caught panic
         import stages_ext
         seg = stage_segments(tier, dump["crash"]["file"], "segments-crash", universe="3")
         stages_ext.segments_into(prop, seg, fnd, cov, sys.modules[__name__], "crash")
+        stages_ext.clone_crash_into(prop, tier, fnd, cov, sys.modules[__name__])
+        seed = int(os.environ.get("VERIF_SEED", "0"))
+        drvc = stage_drive(tier, name="drive-crash", plan=stages_ext.crash_plan(tier, seed))
+        collect_drive(prop, drvc, fnd, cov, crash_owner="C16")
     cov["distinct_nontrivial"] = nt["counts"].get(prop, 0)
     cov["samples"] = nt["samples"].get(prop, [])[:3]
+    if cov["distinct_nontrivial"] < 2:
+        raise ToolError("vacuous: the bounded model never exercises %s non-trivially" % prop)
     return cov
 
 
@@ -830,7 +869,9 @@ def collect_drive(prop, drv, fnd, cov, key="traces_validated_against_impl", cras
     for r in drv["runs"]:
         v = r["validation"]
         if r.get("driver_crashed"):
-            if prop == crash_owner:
+            oom = "memory allocation of" in (r.get("stderr") or "")
+            # running out of the (limited) address space is unbounded growth, not a memory error
+            if (prop == crash_owner and not oom) or (prop == "C13" and oom):
                 fnd.add("driver_crash", "driver process died (rc %s) for %s: %s" %
                         (r["driver_rc"], json.dumps(r["job"]), r.get("stderr", "")[-300:]),
                         {"kind": "drive", "job": r["job"]})
@@ -979,6 +1020,10 @@ def main():
         return decide(args[0], tier)
     except ToolError as e:
         print("TOOL-ERROR:", str(e)[:4000], file=sys.stderr)
+        return 2
+    except Exception:
+        import traceback
+        print("TOOL-ERROR: internal error of the checker\n" + traceback.format_exc()[-3000:], file=sys.stderr)
         return 2
 
 
